@@ -426,8 +426,11 @@ func e4RaceCase(seed uint64, n int) Case {
 // contains a deleted and re-created object; once the list has been consumed,
 // with the server quiet since before its snapshot, the cache must equal the
 // list, and no Watch call may go back to a version older than the list's.
-func e4RetryRaceCase(seed uint64, n int) Case {
-	id := fmt.Sprintf("E4/relist-at-reconnect-expiry/%d/%d", seed, n)
+func e4RetryRaceCase(seed uint64, n int) Case { return eRelistAtExpiryCase("C03", "E4", seed, n) }
+
+// eRelistAtExpiryCase: prop/engine name the property the case is run for (C03 in E4, C04 in E5).
+func eRelistAtExpiryCase(prop, eng string, seed uint64, n int) Case {
+	id := fmt.Sprintf("%s/relist-at-reconnect-expiry/%d/%d", eng, seed, n)
 	// offset of the list's release relative to (disconnect + reconnect delay)
 	off := time.Duration(n%40-8) * 100 * time.Microsecond
 	hold := []time.Duration{150 * time.Microsecond, 400 * time.Microsecond, 900 * time.Microsecond}[(n/40)%3]
@@ -469,7 +472,7 @@ func e4RetryRaceCase(seed uint64, n int) Case {
 		sub, _ := g.ctl.Subscribe()
 		mir := startMirror("root-subscriber", sub.Events(), sub.Ready(), sub.Cache())
 		if !waitCh(g.ctl.Ready(), virtBound) {
-			r.V("C03", "never-ready", "controller not ready")
+			r.V(prop, "never-ready", "controller not ready")
 			return
 		}
 		g.barrier()
@@ -498,7 +501,7 @@ func e4RetryRaceCase(seed uint64, n int) Case {
 		want := kit.SnapOf(srv.Objects())
 		got, _ := cacheSnap(g.ctl.Cache())
 		if !got.Equal(want) {
-			r.V("C03", "stale-event-applied-after-list", "list #2 was released %v after a disconnect (reconnect delay %v, watcher held %v at its log points) and consumed; 100ms later, the server quiet since before its snapshot, the cache is %v, the list was %v; watch calls: %s; last events at the subscriber: %s", time.Since(disconnected)-100*time.Millisecond, kcache.VerifWatchRetryDelay, hold, got, want, watchSummary(srv.Watches()), tailEvents(mir.events(), 8))
+			r.V(prop, "stale-event-applied-after-list", "list #2 was released %v after a disconnect (reconnect delay %v, watcher held %v at its log points) and consumed; 100ms later, the server quiet since before its snapshot, the cache is %v, the list was %v; watch calls: %s; last events at the subscriber: %s", time.Since(disconnected)-100*time.Millisecond, kcache.VerifWatchRetryDelay, hold, got, want, watchSummary(srv.Watches()), tailEvents(mir.events(), 8))
 			return
 		}
 		time.Sleep(3 * time.Second)
@@ -514,17 +517,33 @@ func e4RetryRaceCase(seed uint64, n int) Case {
 					continue
 				}
 				if restarted > 0 && w.N > restarted && kit.Atoi(w.RV) < lists[1].RV {
-					r.V("C03", "watch-restarted-before-list-version", "the watch had been restarted at list #2's version %d (Watch call #%d); Watch call #%d then asked for the OLDER version %s: history the list already covers is replayed on top of it; watch calls: %s", lists[1].RV, restarted, w.N, w.RV, watchSummary(srv.Watches()))
+					r.V(prop, "watch-restarted-before-list-version", "the watch had been restarted at list #2's version %d (Watch call #%d); Watch call #%d then asked for the OLDER version %s: history the list already covers is replayed on top of it; watch calls: %s", lists[1].RV, restarted, w.N, w.RV, watchSummary(srv.Watches()))
 					return
 				}
 			}
 		}
 		got, _ = cacheSnap(g.ctl.Cache())
 		if !got.Equal(want) {
-			r.V("C03", "stale-event-applied-after-list", "3s after list #2 was consumed (server quiet) the cache is %v, the server %v; watch calls: %s", got, want, watchSummary(srv.Watches()))
+			r.V(prop, "stale-event-applied-after-list", "3s after list #2 was consumed (server quiet) the cache is %v, the server %v; watch calls: %s", got, want, watchSummary(srv.Watches()))
 			return
 		}
-		mir.report(r, "C03")
+		// ... and the watch still works: two more events arrive within the reconnect delay
+		// (the next relist is several seconds away)
+		nl := len(srv.Lists())
+		srv.Put(kit.Pod("n0", "b", "", map[string]string{"l": "z"}))
+		srv.Put(kit.Pod("n0", "d", "", map[string]string{"l": "x"}))
+		time.Sleep(kcache.VerifWatchRetryDelay + 300*time.Millisecond)
+		g.barrier()
+		if len(srv.Lists()) == nl {
+			want = kit.SnapOf(srv.Objects())
+			got, _ = cacheSnap(g.ctl.Cache())
+			r.Add("continuity-checks", 1)
+			if !got.Equal(want) {
+				r.V(prop, "not-converged-after-reconnect", "a relist was consumed at the expiry of a pending reconnect delay; two events emitted 3s later have not reached the cache %v after the server went quiet (reconnect delay %v, no relist since): cache %v, server %v; watch calls: %s", kcache.VerifWatchRetryDelay+300*time.Millisecond, kcache.VerifWatchRetryDelay, got, want, watchSummary(srv.Watches()))
+				return
+			}
+		}
+		mir.report(r, prop)
 		r.Add("relist-at-reconnect-expiry-cases", 1)
 		r.Key(id)
 		r.Set("signatures", strconv.FormatUint(core.Signature(), 16))
